@@ -176,16 +176,24 @@ Section Bytes.
       rewrite Hall, app_length. destruct rest; [congruence | cbn; lia].
   Qed.
 
-  (* the state clause: the document is mutated iff save_internal reached the mutation point *)
+  (* the state clause: the document is mutated iff save_internal reached the mutation point; when it
+     did not, the result is an error and the file holds fewer bytes than were written before that
+     point -- whatever the capacity and the call boundaries (so: a file that holds at least the
+     bytes of [pre] comes with a mutated document) *)
   Theorem save_path_with_residue mode ids pre post st s r file st' :
     save_path_with wa cap mode ids pre post st None s = (r, file, st') ->
-    (st' = st /\ r <> WOk) \/ st' = mutate mode ids st.
+    (st' = st /\ r <> WOk /\ (length file < length (concat pre))%nat) \/ st' = mutate mode ids st.
   Proof.
-    unfold save_path_with. destruct (run_cwb wa cap pre _) as [[r1 d1] c1]. destruct r1 as [|e1].
+    unfold save_path_with. destruct (run_cwb wa cap pre _) as [[r1 d1] c1] eqn:E1. destruct r1 as [|e1].
     - destruct (run_cwb wa cap post c1) as [[r2 d2] c2]. destruct (finish_path wa r2 _ _) as [[rf f] sf].
       intro H; inversion H; subst. right. reflexivity.
-    - cbn [finish_path]. destruct (bw_drop wa _) as [d2 s2]. intro H; inversion H; subst.
-      left. split; [reflexivity | discriminate].
+    - cbn [finish_path]. destruct (bw_drop wa _) as [d2 s2] eqn:E2. intro H; inversion H; subst.
+      left. split; [reflexivity|]. split; [discriminate|].
+      assert (Hinv : (length (bw_buf (cwb_inner {| cwb_inner := {| bw_buf := []; bw_inner := s |}; cwb_count := 0 |})) <= cap)%nat)
+        by (cbn; lia).
+      destruct (run_cwb_sound _ _ _ _ _ Hinv E1) as [_ Herr]. cbn [cwb_inner bw_buf app] in Herr.
+      destruct (Herr e1 eq_refl) as [lost [Hl Hc]]. destruct (bw_drop_sound _ _ _ E2) as [rest HB].
+      rewrite Hc, HB, !app_length. destruct lost; [congruence | cbn [length]; lia].
   Qed.
 End Bytes.
 
